@@ -10,6 +10,12 @@
 (* (r = r8 / 8, exactly representable in f32/f64) and compared with a      *)
 (* reduced distance after scaling both sides to integers.                  *)
 (*                                                                         *)
+(* A case may carry a scale sc (a power of two): the real coordinates are  *)
+(* then pts / sc and q / sc and the real radius r8 / (8 sc).  Every        *)
+(* comparison below is homogeneous in the scale, so the relations are      *)
+(* stated on the integer numerators; the harness multiplies what it        *)
+(* observes (coordinates, ball-tree centres and radii) by sc again.        *)
+(*                                                                         *)
 (* A query result is a record                                              *)
 (*   [pos |-> <<0-based row positions>>, pts |-> <<coordinate tuples>>,    *)
 (*    exact |-> every returned coordinate was an integer]                  *)
